@@ -1164,17 +1164,37 @@ pub trait W {
     fn pad(&self) -> Option<u8>;
     fn write(&self, buf: &mut [u8]) -> Result<usize, RtcpWriteError>;
 }
-impl<T: RtcpPacketWriter> W for T {
-    fn calc(&self) -> Result<usize, RtcpWriteError> {
-        self.calculate_size()
-    }
-    fn pad(&self) -> Option<u8> {
-        self.get_padding()
-    }
-    fn write(&self, buf: &mut [u8]) -> Result<usize, RtcpWriteError> {
-        self.write_into(buf)
-    }
+/// One impl per concrete builder type, so that every call below is written - and resolved - the way a user of
+/// the crate writes it: method syntax on the concrete type.  (A blanket impl over `T: RtcpPacketWriter` would
+/// always reach the trait's methods and never an inherent method of the same name on one builder.)
+macro_rules! impl_w {
+    ($([$($g:tt)*] $t:ty),* $(,)?) => { $(
+        impl<$($g)*> W for $t {
+            fn calc(&self) -> Result<usize, RtcpWriteError> {
+                self.calculate_size()
+            }
+            fn pad(&self) -> Option<u8> {
+                self.get_padding()
+            }
+            fn write(&self, buf: &mut [u8]) -> Result<usize, RtcpWriteError> {
+                self.write_into(buf)
+            }
+        }
+    )* };
 }
+impl_w!(
+    [] SenderReportBuilder,
+    [] ReceiverReportBuilder,
+    ['a] AppBuilder<'a>,
+    ['a] ByeBuilder<'a>,
+    ['a] SdesBuilder<'a>,
+    ['a] TransportFeedbackBuilder<'a>,
+    ['a] PayloadFeedbackBuilder<'a>,
+    ['a] UnknownBuilder<'a>,
+    ['a] CompoundBuilder<'a>,
+    ['a] PacketBuilder<'a>,
+    [const PT: u8, const MIN: usize] CustomBuilder<PT, MIN>,
+);
 
 pub fn item_builder(c: &ItemCfg) -> SdesItemBuilder<'_> {
     let b = SdesItem::builder(c.ty, c.value.as_str());
